@@ -722,9 +722,11 @@ class State:
         vis = c.simplices()
         if [s['id'] for s in o['simplices']] != list(vis):
             return 'FAIL encoded simplices are not the complex at the current index'
-        wrapped = json.loads(json.dumps({'x': [1, {'y': None}], 'z': 'w'}), object_hook=sfile.as_simplicial_complex)
-        if wrapped != {'x': [1, {'y': None}], 'z': 'w'}:
-            return 'FAIL decoder changed JSON without the marker'
+        for plain in ({'x': [1, {'y': None}], 'z': 'w'}, {'__version__': 0.1, 'payload': {'__version__': 7, 'k': [1, 2]}},
+                      {'__simplicialcomplex__': True, 'simplices': 3}, {'__version__': 'other', '__simplicialcomplex__': True, 'n': 1}):
+            wrapped = json.loads(json.dumps(plain), object_hook=sfile.as_simplicial_complex)
+            if wrapped != plain:
+                return 'FAIL decoder changed a JSON object that is not an encoded complex: %r -> %r' % (plain, wrapped)
         nested = json.loads(json.dumps({'a': [json.loads(txt)], 'b': 2}), object_hook=sfile.as_simplicial_complex)
         if not isinstance(nested['a'][0], SimplicialComplex) or nested['b'] != 2:
             return 'FAIL complex wrapped in other JSON not decoded'
@@ -732,8 +734,15 @@ class State:
         fd, path = tempfile.mkstemp(suffix='.json', dir='/var/tmp')
         os.close(fd)
         try:
+            # the file may already exist with longer content
+            big = SimplicialComplex()
+            for i in range(12):
+                big.addSimplex(id='pad%d' % i, attr={'padding': 'x' * 50})
+            sfile.write_json(big, path)
             sfile.write_json(c, path)
             d = sfile.read_json(path)
+        except Exception as e:
+            return 'FAIL write_json then read_json on an existing file raised %s: %r' % (type(e).__name__, e)
         finally:
             os.unlink(path)
         if d.simplices() != list(vis) or [type(x) for x in d.simplices()] != [type(x) for x in vis]:
